@@ -805,6 +805,89 @@ def precision_lint(chk, repo, rule, paths, floor_funcs=5):
 
 
 
+_BOUNDED_ROLES = ('e', 'e2', 'eccentricity', 'obliquity', 'inclination', 'colatitude', 'longitude', 'melt_fraction', 'alpha', 'zeta', 'i', 'cos_i', 'sin_i')
+_BOUNDED_PREFIXES = ('cos_', 'sin_', 'eccentricity', 'obliquity', 'inclination')
+_SMALL_INT_ROLES = ('order_l', 'degree_l', 'degree', 'order', 'harmonic', 'index', 'num_', 'n_', '_i', 'count', 'max_l', 'min_l')
+
+
+def int_power_lint(chk, repo, rule, paths, floor_funcs=1):
+    """numba compiles a function for the types it is called with: an argument given as an integer (a Python int, a numpy integer scalar or array -- representations the
+    property does not set apart from floats) stays an int64 until it meets a float.  `x ** k` with an integer literal k binds tighter than the surrounding products, so it is
+    evaluated on the bare integer: for k < 0 the result is 0 (integer arithmetic; 1 // x**|k|), for k >= 3 it wraps around silently once |x| exceeds 2^(63/k) (2.1e6 for k = 3:
+    a mantle thickness in metres).  Reported: in every numba-compiled function of the given sources, an integer-literal power with k < 0 or k >= 3 whose base is a parameter, or a
+    product / sum / integer power of parameters and integer literals, unless the base is a small integer by its role (a harmonic degree, an index, a count).  `x ** 2` of a
+    physical quantity is left alone (it needs |x| > 3e9), a float literal exponent (`** 3.`), a float factor inside the base or a true division make the base a float."""
+    import glob, os
+    nf = 0
+    for pat in paths:
+        for path in sorted(glob.glob(os.path.join(repo.root, pat), recursive=True)):
+            rel = os.path.relpath(path, repo.root)
+            mod = repo.by_path(rel)
+            offenders = []
+            for fn in [x for x in ast.walk(mod.tree) if isinstance(x, ast.FunctionDef)]:
+                if not any('jit' in ast.unparse(d_) for d_ in fn.decorator_list):
+                    continue
+                nf += 1
+                params = {a.arg for a in fn.args.args + fn.args.kwonlyargs}
+                floaty = set()          # locals known to hold floats
+                inty = set(params)      # names that may hold an integer when the arguments are integers
+                assigns = [n_ for n_ in ast.walk(fn) if isinstance(n_, ast.Assign) and len(n_.targets) == 1 and isinstance(n_.targets[0], ast.Name)]
+
+                def maybe_int(e):
+                    if isinstance(e, ast.Constant): return isinstance(e.value, int) and not isinstance(e.value, bool)
+                    if isinstance(e, ast.Name): return e.id in inty
+                    if isinstance(e, ast.UnaryOp): return maybe_int(e.operand)
+                    if isinstance(e, ast.BinOp):
+                        if isinstance(e.op, ast.Div): return False
+                        if isinstance(e.op, ast.Pow): return maybe_int(e.left) and isinstance(e.right, (ast.Constant, ast.UnaryOp)) and maybe_int(e.right)
+                        if isinstance(e.op, (ast.Add, ast.Sub, ast.Mult, ast.FloorDiv, ast.Mod)): return maybe_int(e.left) and maybe_int(e.right)
+                    return False
+                for _ in range(4):
+                    for a_ in sorted(assigns, key=lambda n_: n_.lineno):
+                        if maybe_int(a_.value): inty.add(a_.targets[0].id)
+                for x in ast.walk(fn):
+                    if not (isinstance(x, ast.BinOp) and isinstance(x.op, ast.Pow)):
+                        continue
+                    r = x.right; k = None
+                    if isinstance(r, ast.Constant) and isinstance(r.value, int) and not isinstance(r.value, bool): k = r.value
+                    elif isinstance(r, ast.UnaryOp) and isinstance(r.op, ast.USub) and isinstance(r.operand, ast.Constant) and isinstance(r.operand.value, int) and not isinstance(r.operand.value, bool): k = -r.operand.value
+                    if k is None or (0 <= k < 3) or not maybe_int(x.left):
+                        continue
+                    names = {n_.id for n_ in ast.walk(x.left) if isinstance(n_, ast.Name)}
+                    if names and all(nm_ in _BOUNDED_ROLES or any(nm_.startswith(b_) for b_ in _BOUNDED_PREFIXES) for nm_ in names):
+                        continue              # eccentricities, angles, fractions: bounded by a few units, so is every power the tables take of them
+                    if names and all(any(role in nm_ or nm_ in ('l', 'm', 'p', 'q', 'n', 'k', 'i', 'j') for role in _SMALL_INT_ROLES) for nm_ in names):
+                        continue
+                    if not names:
+                        continue
+                    what = 'is 0 in integer arithmetic' if k < 0 else f'wraps around in int64 once the base exceeds {2 ** (63 / k):.3g}'
+                    offenders.append(f'{fn.name} line {x.lineno}: `{ast.unparse(x)[:50]}` {what} when {", ".join(sorted(names))} are given as integers')
+                # the same power written as a repeated product: x * x * x evaluated left to right on integers (a float factor in front makes the rest float)
+                left_children = {id(n_.left) for n_ in ast.walk(fn) if isinstance(n_, ast.BinOp) and isinstance(n_.op, ast.Mult)}
+                for x in ast.walk(fn):
+                    if not (isinstance(x, ast.BinOp) and isinstance(x.op, ast.Mult)) or id(x) in left_children:
+                        continue
+                    chain = []
+                    y = x
+                    while isinstance(y, ast.BinOp) and isinstance(y.op, ast.Mult):
+                        chain.append(y.right); y = y.left
+                    chain.append(y); chain.reverse()
+                    seen = {}
+                    for fct in chain:
+                        if not maybe_int(fct):
+                            break
+                        if isinstance(fct, ast.Name):
+                            seen[fct.id] = seen.get(fct.id, 0) + 1
+                            nm_ = fct.id
+                            if seen[nm_] == 3 and nm_ not in _BOUNDED_ROLES and not any(nm_.startswith(b_) for b_ in _BOUNDED_PREFIXES) \
+                                    and not any(role in nm_ or nm_ in ('l', 'm', 'p', 'q', 'n', 'k', 'i', 'j') for role in _SMALL_INT_ROLES):
+                                offenders.append(f'{fn.name} line {x.lineno}: `{ast.unparse(x)[:50]}` (a third power written as a product) wraps around in int64 once {nm_} exceeds 2.1e+06 when it is given as an integer')
+            chk.ob(rule, f'{rel}: no integer-literal power (k < 0 or k >= 3) is taken of a quantity that stays an integer for integer arguments (numba types arithmetic by its arguments)', not offenders,
+                   '; '.join(offenders[:3]), rel, key=f'{rule}|{rel}', method='syntactic type flow in numba-compiled functions (float literals, true division and numpy calls make a float)')
+    if nf < floor_funcs:
+        raise AnalysisError(f'integer-power lint for {rule}: only {nf} numba-compiled functions scanned')
+
+
 def strided_view_lint(chk, repo, rule, paths, floor_views=0):
     """A typed memoryview declared `T[::1]` accepts only C-contiguous buffers (Cython raises ValueError for anything else), so `&view[0]` followed by pointer arithmetic `ptr[i]`
     walks the elements of the view.  Declared `T[:]` (or `T[:, :]`, ...) the same view accepts strided buffers -- `a[::2]`, a column of a 2-d array -- and `ptr[i]` then reads and writes
